@@ -60,12 +60,22 @@ pub fn bad_bodies(cf: Cf, id: SeqId) -> Vec<Vec<u8>> {
     }
 }
 
-/// Is this bad body malformed by the wire format itself - a mandatory positional byte missing, a
-/// fixed-width field or a length prefix cut off, a container announcing more than there is - so
-/// that the reference codec, not the library under test, has the last word on it? (The others -
-/// a duplicated tag, an empty set-time packet - are left to the library's own parser.)
+/// Is this bad body malformed in the one way on which the reference codec, not the library under
+/// test, has the last word: a BER-TLV length prefix (`81` / `82` form) cut off at the end of the
+/// packet ("a truncated prefix is an error")? Every other bad body - a missing byte, a short
+/// fixed-width field, a duplicated tag - is left to the library's own parser, which may be lenient.
 pub fn structurally_malformed(frame: &[u8]) -> bool {
-    !matches!(frame, [0x04, 0x0f, 0x04, 0x27, 0x00, 0x27, 0x00] | [0x04, 0x01, ..])
+    matches!(
+        frame,
+        [0x04, 0x0f, 0x02, 0x06, 0x81]
+            | [0x04, 0x0f, 0x02, 0x06, 0x82]
+            | [0x04, 0x0f, 0x03, 0x06, 0x82, 0x00]
+            | [0x04, 0x0f, 0x04, 0x06, 0x02, 0x4c, 0x81]
+            | [0x06, 0xd3, 0x02, 0x06, 0x81]
+            | [0x06, 0xd3, 0x04, 0x06, 0x02, 0x25, 0x82]
+            | [0x04, 0x0c, 0x02, 0x06, 0x81]
+            | [0x04, 0x0c, 0x03, 0x06, 0x82, 0x01]
+    )
 }
 
 /// Control fields near the alphabet, of other replies, and a fixed PRNG sample.
